@@ -21,12 +21,14 @@ RULE = ('all operation histories of length <= H over {G1 fresh-generator hierarc
         'a block then regenerate}; states = (history) nodes of the prefix tree, transitions = operations executed; every history is '
         'executed on freshly built circuits (traces_validated_against_impl = histories)')
 ASSUMPTIONS = ['normalisation: hex id suffixes renumbered by first appearance; contiguous runs of wire declarations sorted; nothing else',
-               'reusing a caller-owned createdStructures list across calls is outside the alphabet (documented as "already emitted, skip")',
+               'a caller-owned createdStructures list: entries never disappear, and a request given the list answers like a fresh generator given a copy of it',
+               'every shard runs in a freshly forked process (no transpilation has happened in the parent), so class-level tables start empty',
                'canonical answers are taken from a pristine build at the start of each shard']
-BOUNDS = {'quick': 'H = 4, four circuits (combinational hierarchy with shared named modules, ModuloCounter, transpiled FSM + registers, a sub-block in its own named clock domain)',
-          'thorough': 'H = 6, same circuits'}
+BOUNDS = {'quick': 'H = 4, five circuits (three different transpiled classes with a parent-to-child forwarded Verilog parameter, combinational hierarchy with shared named modules, ModuloCounter, transpiled FSM + registers, a sub-block in its own named clock domain)',
+          'thorough': 'H = 5, same circuits'}
 
-OPS = ['G1', 'G1r', 'G2', 'G2f', 'G3', 'G4', 'Gx', 'P', 'S', 'M']
+OPS = ['G1', 'G1r', 'G2', 'G2f', 'G3', 'G4', 'Gx', 'L', 'P', 'S', 'M']
+MAXTASKS = 1        # every shard in a freshly forked process: class-level / module-level tables start pristine
 HEXID = re.compile(r'_(?:0x)?[0-9a-f]{8,}\b')
 
 
@@ -73,6 +75,64 @@ class Inner2(Logic):
         py4hw.Reg(self, 'r1', m, q)
 
 
+class ParamReg(Logic):
+    """behavioural register whose power-up value is the Verilog parameter INIT"""
+    def __init__(self, parent, name, a, load, r, init_value):
+        super().__init__(parent, name)
+        self.a = self.addIn('a', a)
+        self.load = self.addIn('load', load)
+        self.r = self.addOut('r', r)
+        self.addParameter('INIT', init_value)
+
+    def clock(self):
+        if (self.load.get()):
+            self.r.prepare(self.a.get())
+
+
+class Pair(Logic):
+    """forwards its own parameter to two behavioural children"""
+    def __init__(self, parent, name, a, load, r, init_value):
+        super().__init__(parent, name)
+        self.addIn('a', a)
+        self.addIn('load', load)
+        self.addOut('r', r)
+        self.addParameter('INIT', init_value)
+        r1 = self.wire('r1', r.getWidth())
+        r2 = self.wire('r2', r.getWidth())
+        ParamReg(self, 'p1', a, load, r1, self.getParameter('INIT'))
+        ParamReg(self, 'p2', a, load, r2, self.getParameter('INIT'))
+        py4hw.Xor2(self, 'x', r1, r2, r)
+
+
+class Pulse(Logic):
+    """a second behavioural class: constructor argument + state variable"""
+    def __init__(self, parent, name, period, q):
+        super().__init__(parent, name)
+        self.q = self.addOut('q', q)
+        self.period = period
+        self.count = 0
+
+    def clock(self):
+        if (self.count == self.period):
+            self.count = 0
+            self.q.prepare(1)
+        else:
+            self.count = self.count + 1
+            self.q.prepare(0)
+
+
+class Scaler(Logic):
+    """a third one whose local variable has the name of Pulse's constructor argument"""
+    def __init__(self, parent, name, a, r):
+        super().__init__(parent, name)
+        self.a = self.addIn('a', a)
+        self.r = self.addOut('r', r)
+
+    def propagate(self):
+        period = self.a.get()
+        self.r.put(period & 1)
+
+
 def build(kind):
     """-> ns(sys, free, child (for G2/G3), prim (for P), spare wires for M)"""
     hw = py4hw.HWSystem()
@@ -113,8 +173,20 @@ def build(kind):
         py4hw.Reg(hw, 'sysreg', n, hw.wire('q2', 2))
         c.free = [d, en]
         c.edit = lambda: py4hw.Not(hw, 'extra', n, hw.wire('extra', 2))
+    elif kind == 'beh':
+        # several different transpiled classes in one design + a parameter forwarded from parent to children
+        a, load = hw.wire('a', 2), hw.wire('load')
+        r, q, s2, n = hw.wire('r', 2), hw.wire('q'), hw.wire('s2', 2), hw.wire('n', 2)
+        c.child = Pair(hw, 'pair', a, load, r, 2)
+        Pulse(hw, 'pulse', 2, q)
+        Scaler(hw, 'scaler', r, s2)
+        c.prim = py4hw.Not(hw, 'not_top', s2, n)
+        c.free = [a, load]
+        c.edit = lambda: py4hw.Not(hw, 'extra', n, hw.wire('extra', 2))
     else:
         raise ValueError(kind)
+    c.lst = []          # the caller-owned list of already emitted structures (op L)
+    c.nl = 0
     c.sim = hw.getSimulator()
     c.st = core.SysState(hw, free=c.free)
     c.gen = py4hw.VerilogGenerator(hw)
@@ -147,6 +219,15 @@ def request(c, op, c2):
         return [('hier2', normalise(VG(c2.sys).getVerilogForHierarchy()))]
     if op == 'P':
         return [('prim', VG(top).inlinePrimitive(c.prim))]
+    if op == 'L':
+        # hierarchy request with the caller-owned list of already emitted structures on the reused generator:
+        # first the child, then the top, alternating.  Reference = a fresh generator given a copy of the list.
+        tgt = c.child if c.nl % 2 == 0 else None
+        c.nl += 1
+        copy = list(c.lst)
+        want = normalise(VG(top).getVerilogForHierarchy(tgt, noInstanceNumberInTopEntity=False, createdStructures=copy))
+        got = normalise(c.gen.getVerilogForHierarchy(tgt, noInstanceNumberInTopEntity=False, createdStructures=c.lst))
+        return [('withlist', got, want), ('withlist_names', sorted(c.lst), sorted(copy))]
     raise ValueError(op)
 
 
@@ -159,7 +240,7 @@ def canonical(kind, kind2):
             if edited:
                 c.edit()
                 c.sys.getSimulator()
-            for k, t in request(c, op, None):
+            for k, t, *_ in request(c, op, None):
                 out[(k, edited)] = t
     c2 = build(kind2)
     out[('hier2', False)] = out[('hier2', True)] = request(build(kind), 'Gx', c2)[0][1]
@@ -195,16 +276,22 @@ def run_history(kind, kind2, hist, canon, res):
                 cc.st = core.SysState(cc.sys, free=cc.free)
             continue
         before = c.st.snapshot()
+        lst_before = list(c.lst)
         try:
             got = request(c, op, c2)
         except Exception as e:
             return {'sigkey': 'generation_raised:%s' % op, 'step': i, 'error': repr(e)[:200]}
         if c.st.snapshot() != before:
             return {'sigkey': 'circuit_state_changed:%s' % op, 'step': i}
-        for k, t in got:
-            want = canon[(k, c.edited)]
+        if [x for x in lst_before if x not in c.lst]:
+            # the list handed to an earlier request belongs to the caller: entries ("already emitted") never disappear
+            return {'sigkey': 'caller_list_lost_entries:%s' % op, 'step': i, 'before': lst_before[:8], 'after': list(c.lst)[:8]}
+        for k, t, *w in got:
+            want = w[0] if w else canon[(k, c.edited)]
             res['evaluations'] += 1
             if t != want:
+                if not isinstance(t, str):
+                    return {'sigkey': 'text_differs:%s' % op, 'step': i, 'request': k, 'reference': want[:8], 'got': t[:8]}
                 return {'sigkey': 'text_differs:%s' % op, 'step': i, 'request': k,
                         'first_difference': first_diff(want, t)}
     return None
@@ -218,13 +305,13 @@ def first_diff(a, b):
     return {'line': min(len(la), len(lb)), 'canonical_lines': len(la), 'got_lines': len(lb)}
 
 
-KINDS = [('comb', 'seq'), ('seq', 'fsm'), ('fsm', 'comb'), ('multiclk', 'comb')]
+KINDS = [('comb', 'seq'), ('seq', 'fsm'), ('fsm', 'comb'), ('multiclk', 'comb'), ('beh', 'fsm')]
 
 
 def shards(tier):
-    H = 6 if tier == 'thorough' else 4
+    H = 5 if tier == 'thorough' else 4
     out = []
-    pre = 2 if H > 4 else 1
+    pre = 2 if H > 4 else 1   # thorough: 121 prefixes per circuit
     for kind, kind2 in KINDS:
         for prefix in itertools.product(OPS, repeat=pre):
             out.append({'kind': kind, 'kind2': kind2, 'prefix': list(prefix), 'H': H})
